@@ -35,9 +35,12 @@ impl Group for Run {
             let max = *rng.pick(&[0usize, 1, 1, 2, 2, 5, usize::MAX / 2, usize::MAX]);
             let ce = *rng.pick(&[0usize, 1, 1, 1, 2, 3, usize::MAX]);
             let is_timed = i < timed;
+            // every other timed case: sampling (check_every 2 or 3) across a window reset with a small maximum — what is
+            // sampled after the reset depends on the sampling counter starting over with the window
+            let (max, ce) = if is_timed && i % 2 == 0 { (*rng.pick(&[0usize, 1, 2]), *rng.pick(&[2usize, 3])) } else { (max, ce) };
             let reset = if is_timed { 200 } else if rng.chance(1, 10) { 0 } else { 1_000_000 };
             let naddr = rng.range(1, 4);
-            let len = if is_timed { rng.range(4, 40) } else { rng.range(1, 200) };
+            let len = if is_timed && i % 2 == 0 { rng.range(16, 40) } else if is_timed { rng.range(4, 40) } else { rng.range(1, 200) };
             let bursts = if is_timed { rng.range(2, 3) } else { 1 };
             let mut evs = Vec::new();
             for k in 0..len {
